@@ -111,6 +111,12 @@ def _check_transform_path(ctx, ex, p, drv, b, first=True):
     rule = "C08.a WINDOW-GEOM"
     evs = [e for e in p.events if e.kind == "scorer_evaluate"]
     fits = [e for e in p.events if e.kind == "scorer_fit"]
+    if len(evs) == 0 and any(v and "isinstance(" in c.key for c, v in p.facts) and any(e.kind == "abstract_isinstance" for e in p.events):
+        # the transform asks whether the arbitrary change score is an instance of one built-in class and then computes the
+        # scores itself: a user-defined subclass of that class (its own _evaluate, its own validation) is bypassed
+        ie = next(e for e in p.events if e.kind == "abstract_isinstance")
+        ctx.violation(rule, "evaluate", drv.loc(), f"on the path taken by instances of {ie.data['cls'].name} the scores are not obtained through the change score's evaluate(): a user-defined subclass that overrides _evaluate gets the built-in kernel's scores", found="0 score evaluations after an isinstance test of the score", expected="change_score.evaluate(cuts) for every change score")
+        return
     if len(evs) != 1:
         ctx.undecided(rule, "evaluate", drv.loc(), f"{len(evs)} score evaluations")
         return
